@@ -13,6 +13,10 @@ def genCfg : Cfg :=
     rtpRecover := IpcHub.Gen.rtpUnmarshalRecovers
     fieldNames := IpcHub.Gen.canonicalFieldNames.map ascii }
 
+/-- the limits of the current tree (0 when the source has no such guard) -/
+def genMaxLine : Nat := genCfg.maxLine.getD 0
+def genMaxBody : Nat := genCfg.maxBody.getD 0
+
 def genStatusTable : List (Nat × List UInt8) := IpcHub.Gen.statusTable.map (fun p => (p.1, ascii p.2))
 
 def genMethods : List (List UInt8) := IpcHub.Gen.methodConstants.map ascii
